@@ -313,7 +313,9 @@ def checks (w : World) : Label → Checks
      -- the polling loop suspends (`sleep(0)`) only after a pass over the buses that found every queue empty
      ("pollYield: a queue holds an event (the polling pass takes it instead of suspending)",
         -- (a bus removed by stop(clear=True) is no longer visited by later passes)
-        (List.range w.nb).all fun b => (w.bus b).removed || (w.bus b).queue.isEmpty)]
+        (List.range w.nb).all fun b => (w.bus b).removed || (w.bus b).queue.isEmpty),
+     -- the loop makes at most cfg.maxPoll passes, each of which ends in at most one such yield; then the await gives up
+     ("pollYield: the polling passes are used up", (w.inst i).yields < w.cfg.maxPoll)]
   | .awaitEnd i c =>
     [("awaitEnd: unknown instance", i < w.ni),
      ("awaitEnd: instance is not awaiting this event", (w.inst i).st == .awaiting c),
@@ -576,8 +578,8 @@ def apply0 (w : World) : Label → World
     match p with
     | .rl b' => (w.modBus b' fun B => { B with rl := .exited, running := false, cancelReq := false }).setLock none
     | _ => w
-  | .awaitBegin i c => w.modInst i fun I => { I with st := .awaiting c, iters := 0 }
-  | .pollYield i => w.modInst i fun I => { I with iters := I.iters + 1 }
+  | .awaitBegin i c => w.modInst i fun I => { I with st := .awaiting c, iters := 0, yields := 0 }
+  | .pollYield i => w.modInst i fun I => { I with iters := I.iters + 1, yields := I.yields + 1 }
   | .awaitEnd i _ => w.modInst i fun I => { I with st := .running }
   | .xAwaitEnd _ => w
   | .readBus _ _ => w
